@@ -19,8 +19,9 @@ import (
 // case format
 
 type Num struct {
-	Q  string `json:"q,omitempty"`  // decimal integer z: the number z/4
-	Sp string `json:"sp,omitempty"` // negzero nan inf -inf
+	Q    string `json:"q,omitempty"`    // decimal integer z: the number z/4
+	Sp   string `json:"sp,omitempty"`   // negzero nan inf -inf
+	Bits string `json:"bits,omitempty"` // any double: its binary64 bit pattern, decimal
 }
 
 type Prop struct {
@@ -111,6 +112,13 @@ var prelude = goja.MustCompile("prelude.js", preludeSrc, false)
 func newRT() *goja.Runtime {
 	rt := goja.New()
 	rt.Set("__bits", func(f float64) string { return strconv.FormatUint(math.Float64bits(f), 10) })
+	rt.Set("__fb", func(s string) float64 {
+		b, err := strconv.ParseUint(s, 10, 64)
+		if err != nil {
+			panic(err)
+		}
+		return math.Float64frombits(b)
+	})
 	if _, err := rt.RunProgram(prelude); err != nil {
 		panic(err)
 	}
@@ -236,6 +244,9 @@ type builder struct {
 }
 
 func numJS(n *Num) string {
+	if n.Bits != "" {
+		return `__fb("` + n.Bits + `")`
+	}
 	switch n.Sp {
 	case "negzero":
 		return "(-0)"
@@ -250,6 +261,9 @@ func numJS(n *Num) string {
 }
 
 func numCoq(n *Num) string {
+	if n.Bits != "" {
+		return "(NBits " + n.Bits + "%N)"
+	}
 	switch n.Sp {
 	case "negzero":
 		return "NNegZero"
@@ -483,6 +497,9 @@ func runStr(c Case) vh.Record {
 		case "sym", "fun", "undef":
 			tags["str:non-json-member"] = true
 		}
+		if x.N != nil && x.N.Bits != "" {
+			tags["str:num-"+bitsClass(x.N.Bits)] = true
+		}
 	})
 	tags["str:repl-"+c.R.T] = true
 	switch c.Sp.T {
@@ -508,6 +525,28 @@ func runStr(c Case) vh.Record {
 		Tags:       tagList(tags),
 		Nontrivial: hasContainer,
 	}
+}
+
+func bitsClass(bs string) string {
+	b, _ := strconv.ParseUint(bs, 10, 64)
+	f := math.Abs(math.Float64frombits(b))
+	switch {
+	case f == 0:
+		return "zero"
+	case math.IsNaN(f) || math.IsInf(f, 0):
+		return "nonfinite"
+	case f < 2.2250738585072014e-308:
+		return "subnormal"
+	case f < 1e-6:
+		return "below-1e-6"
+	case f >= 1e21:
+		return "from-1e21"
+	case f > 9007199254740992 && f == math.Trunc(f):
+		return "int-above-2^53"
+	case f == math.Trunc(f):
+		return "int"
+	}
+	return "fraction"
 }
 
 func runCase(c Case) vh.Record {
